@@ -25,6 +25,7 @@ func init() {
 			{ID: "C04.R3", Floor: 2, Run: c04r3, Text: "Get/Set bit addressing, decided per id (bit-level abstract interpretation of the SSA, id and value concrete, words symbolic bit by bit): Get(id) is exactly bit id%W of word id/W; Set(id, v) makes that bit v and leaves every other bit of every word unchanged - for every id of the build and any spelling of the addressing"},
 			{ID: "C04.R4", Floor: 12, Run: c04r4, Text: "filters (E-tt): MaskFilter.Matches ≡ include ⊆ m ∧ exclude ∩ m = ∅; Mask.Matches ≡ b ⊆ m; Exclusive = (b, ¬b); Without = (b, All(ids)); AND/OR/XOR/NOT ≡ ∧/∨/⊕/¬ of the operands' Matches; ANY/NoneOF/AnyNOT ≡ ∃, ¬∃, ¬⊆; RelationFilter and CachedFilter delegate"},
 			{ID: "C04.R5", Floor: 1, Run: c04r5, Text: "MaskTotalBits = number of words × word width; wordSize is the word width"},
+			{ID: "C04.R6", Floor: 4, Run: filterCtorsVerbatim, Text: "logic-filter constructors store their operands unchanged: filter.And/Or/XOr/Not build the combinator from the operands given, not from a rewritten operand"},
 		},
 	})
 }
